@@ -121,13 +121,14 @@ type c07Case struct {
 	failMsg     string
 	tk          targetKind // target version: decides whether RESTORE ... REPLACE is used (target.replace)
 	unreachable bool       // nothing listens at the target address: every worker fails to connect
+	failScript  bool       // the target answers SCRIPT LOAD with an error
 	slow        bool       // the target holds back its slowAt-th reply for slowFor (default 1.25 s)
 	slowAt      int
 	slowFor     time.Duration
 }
 
 func (c *c07Case) String() string {
-	return fmt.Sprintf("mode=%s parallel=%d target=%s(replace=%v) target.db=%d key_exists=%s bigRoute=%v filters=%+v records=%d dbs=%d existing=%d failKey=%q failMsg=%q slow=%v/%d unreachable=%v", c.mode, c.parallel, c.tk.version, targetReplaceRule(c.tk.version), c.targetDB, c.policy, c.bigRoute, c.filt, len(c.file.Records), c.file.NDBs, len(c.existing), c.failKey, c.failMsg, c.slow, c.slowAt, c.unreachable)
+	return fmt.Sprintf("mode=%s parallel=%d target=%s(replace=%v) target.db=%d key_exists=%s bigRoute=%v filters=%+v records=%d dbs=%d existing=%d failKey=%q failMsg=%q slow=%v/%d unreachable=%v failScript=%v", c.mode, c.parallel, c.tk.version, targetReplaceRule(c.tk.version), c.targetDB, c.policy, c.bigRoute, c.filt, len(c.file.Records), c.file.NDBs, len(c.existing), c.failKey, c.failMsg, c.slow, c.slowAt, c.unreachable, c.failScript)
 }
 
 func drawC07(t *rapid.T) *c07Case {
@@ -166,6 +167,9 @@ func drawC07(t *rapid.T) *c07Case {
 	// 5.x: RESTORE ... REPLACE; 6.x: the tool's rule turns REPLACE off, rewrite becomes DEL + RESTORE
 	// 3.2 / 4.0 targets reject the newer value encodings ("Bad data format": the tool falls back to writing the elements)
 	c.tk = rapid.SampledFrom([]targetKind{targetKinds[3], targetKinds[3], targetKinds[5], targetKinds[1], targetKinds[2]}).Draw(t, "target")
+	if rapid.IntRange(0, 19).Draw(t, "scriptLoadFails") == 11 {
+		c.failScript = true
+	}
 	if rapid.IntRange(0, 59).Draw(t, "unreachableTarget") == 31 {
 		c.unreachable = true
 	}
@@ -239,6 +243,15 @@ func c07Check(t fataler, c *c07Case) {
 	for _, r := range c.file.Records {
 		if !r.IsLua {
 			srv.Register(gen.Payload(r.Type, r.ValBytes, gen.DumpVersion), *r.Logical)
+		}
+	}
+	if c.failScript && c.failKey == "" {
+		srv.Hook = func(cs *mredis.ConnState, argv [][]byte) *mredis.Reply {
+			if strings.EqualFold(string(argv[0]), "script") {
+				r := mredis.Err("OOM command not allowed when used memory > 'maxmemory'.")
+				return &r
+			}
+			return nil
 		}
 	}
 	if c.failKey != "" {
@@ -349,6 +362,15 @@ func c07Check(t fataler, c *c07Case) {
 	failed := serr != nil || !res.Completed
 	if c.failKey != "" {
 		expectFailure = true
+	}
+	if c.failScript && c.failKey == "" && nScripts > 0 && !c.unreachable {
+		// a script that passes the filters is sent with SCRIPT LOAD; the target rejected it
+		if !failed {
+			violation(t, "C07", "failure-not-reported:script-load:"+c.mode, "%s: the target answered SCRIPT LOAD with an error (%d scripts pass the filters), yet the run finished as a success", desc, nScripts)
+			return
+		}
+		stats.C.Case(c.parallel >= 2, stats.HashS(desc+fmt.Sprint(c.schedule)), "mode:"+c.mode, "script-load-rejected")
+		return
 	}
 	if c.unreachable {
 		if !failed {
